@@ -98,19 +98,21 @@ type stCovert struct {
 }
 
 type stWorld struct {
-	r       *sim.Run
-	tp      *sim.Tape
-	s       *hook.Sched
-	o       stOpts
-	rm      *cj.RegistrationManager
-	cm      *connManager
-	priv    [32]byte
-	pub     [32]byte
-	subnets *pb.PhantomSubnetsList
-	regChan chan interface{}
-	ctx     context.Context
-	cancel  context.CancelFunc
-	wg      *sync.WaitGroup
+	r           *sim.Run
+	tp          *sim.Tape
+	s           *hook.Sched
+	o           stOpts
+	rm          *cj.RegistrationManager
+	failDials   int // the next failDials dials fail with failDialErr
+	failDialErr error
+	cm          *connManager
+	priv        [32]byte
+	pub         [32]byte
+	subnets     *pb.PhantomSubnetsList
+	regChan     chan interface{}
+	ctx         context.Context
+	cancel      context.CancelFunc
+	wg          *sync.WaitGroup
 
 	mu         sync.Mutex
 	live       map[string]bool
@@ -394,6 +396,11 @@ func (w *stWorld) dial(network, addr string) (net.Conn, error) {
 	w.mu.Lock()
 	w.dials = append(w.dials, stDial{addr, w.r.Elapsed(), hook.TaskName()})
 	ferr := w.dialFault[addr]
+	if ferr == nil && w.failDials > 0 {
+		// "the next n dials fail", whatever address they go to
+		w.failDials--
+		ferr = w.failDialErr
+	}
 	mode := w.covertMode[addr]
 	n := len(w.coverts)
 	w.mu.Unlock()
